@@ -80,7 +80,21 @@ func c11Template(t *rapid.T) []HStep {
 		case 2:
 			return []HStep{{Kind: "tunnel-post", Cookie: ck, Raw: []byte("OPTIONS rtsp://x/stream RTSP/1.0\r\nCSeq: 1\r\n\r\n")}}
 		default:
-			return []HStep{{Kind: "ws", Raw: rapid.SampledFrom(c11Raw).Draw(t, "ws_raw")}}
+			s := HStep{Kind: "ws", Raw: rapid.SampledFrom(c11Raw).Draw(t, "ws_raw")}
+			switch rapid.IntRange(0, 4).Draw(t, "ws_variant") {
+			case 0:
+				s.Ms = 1 // data in the same segment as the handshake
+			case 1:
+				s.Version = rapid.SampledFrom([]string{"12", "14", "0", "abc", ""}).Draw(t, "ws_version")
+				if s.Version == "" {
+					s.Version = " "
+				}
+			case 2:
+				s.CSeq = "missing" // no Sec-WebSocket-Key
+			case 3:
+				s.Cookie = rapid.SampledFrom([]string{"chat", "rtsp.onvif.org, chat", ""}).Draw(t, "ws_protocol")
+			}
+			return []HStep{s}
 		}
 	}
 }
